@@ -33,9 +33,50 @@ def inputs(chk):
     return jobs
 
 
+ERRORS = ["bits :: 32; bits = 64;",                 # assignment to an immutable binding
+          "w : i32 = \"str\";",                      # type mismatch
+          "q :: 5; r := ^mut q;"]                    # ^mut of immutable data
+
+
+def comptime_gate_programs():
+    """functions (and globals) with several type-level comptime blocks, each printing its own
+    marker byte at compile time; one of them contains an error that leaves every type known.
+    Prescribed: the marker of the erroneous block never appears (nothing is generated for code an
+    error was reported in)."""
+    out = []
+    for nblocks in (2, 3):
+        for bad in range(1, nblocks + 1):
+            for en, err in enumerate(ERRORS):
+                for where in ("local", "global"):
+                    decls, body = [], []
+                    for k in range(1, nblocks + 1):
+                        inner = "putchar(%d); %s %s" % (k, err if k == bad else "", ("u8", "i16", "u32")[k - 1])
+                        if where == "local":
+                            body.append("    T%d :: comptime { %s };" % (k, inner))
+                        else:
+                            decls.append("T%d :: comptime { %s };" % (k, inner))
+                        body.append("    a%d : T%d = %d;" % (k, k, k))
+                    src = "putchar :: (c: i32) -> i32 extern;\n" + "\n".join(decls) + "\nmain :: () {\n" + "\n".join(body) + "\n}\n"
+                    out.append(("ctgate:%s:%dof%d:err%d" % (where, bad, nblocks, en), {"main.capy": src}, [bad]))
+    # and error-free ones (every block may run)
+    for nblocks in (1, 3):
+        body = []
+        for k in range(1, nblocks + 1):
+            body.append("    T%d :: comptime { putchar(%d); %s };" % (k, k, ("u8", "i16", "u32")[k - 1]))
+            body.append("    a%d : T%d = %d;" % (k, k, k))
+        src = "putchar :: (c: i32) -> i32 extern;\nmain :: () {\n" + "\n".join(body) + "\n}\n"
+        out.append(("ctgate:ok:%d" % nblocks, {"main.capy": src}, []))
+    return out
+
+
 def run(chk):
     from props import c06
     named = inputs(chk)
+    gate = comptime_gate_programs()
+    ct_bad = {}
+    for name, files, bad in gate:
+        ct_bad["j%d" % len(named)] = bad
+        named.append((name, files))
     jobs = [P.job("j%d" % n, files, link=True) for n, (name, files) in enumerate(named)]
     results = common.run_batch(jobs, chk.wd, "c07", par=14)
 
@@ -49,7 +90,9 @@ def run(chk):
             return
         name = named[int(job["id"][1:])][0]
         pan = r.get("panic") or {}
-        if rec["herr"] or rec["terr"]:
+        if event.startswith("ct:"):
+            kind = "erroneous-comptime-block-was-run"
+        elif rec["herr"] or rec["terr"]:
             kind = "error-reported-but-" + event
         else:
             kind = "no-error-but-" + event
@@ -62,7 +105,9 @@ def run(chk):
                             "files": job["files"],
                             "how": "harness batch (stages of crates/capy main.rs through the library API, "
                                    "finish(entry, track_unsafe = true))"})
-    recs = P.validate(chk, "c07", jobs, results, True, on_bad)
+    recs = P.validate(chk, "c07", jobs, results, True, on_bad, ct_bad=ct_bad)
+    chk.cov["comptime_gate_programs"] = len(gate)
+    chk.cov["comptime_blocks_run_at_compile_time"] = sum(1 for r in recs for e in r["ev"] if e.startswith("ct:"))
     import collections
     chk.cov["outcomes"] = dict(collections.Counter(r["ev"][-1] if r["ev"] else "none" for r in recs))
     chk.cov["verdicts"] = {"no_error": sum(1 for r in recs if not r["herr"] and not r["terr"] and "infer" in r["ev"]),
